@@ -96,7 +96,7 @@ func GenC18Script(t *rapid.T, thorough bool) *Script {
 	for i := 0; i < n; i++ {
 		wi := rapid.IntRange(0, nw-1).Draw(t, "w")
 		var st C18Step
-		switch pick(t, "c18kind", "create", "create", "drain", "drain", "drain", "foreign", "foreign", "owner_label", "fail", "delete", "schedule", "restart") {
+		switch pick(t, "c18kind", "create", "create", "drain", "drain", "drain", "foreign", "foreign", "foreign_mid", "owner_label", "owner_label", "fail", "delete", "schedule", "restart") {
 		case "create":
 			st = C18Step{Kind: "create", W: wi, Pods: []int{rapid.IntRange(0, 5).Draw(t, "pod"), rapid.IntRange(0, 5).Draw(t, "pod")}}
 		case "drain":
@@ -104,6 +104,9 @@ func GenC18Script(t *rapid.T, thorough bool) *Script {
 		case "foreign":
 			arg := pick(t, "field", "queue", "mark", "backoff", "nodepool_set", "nodepool_del", "queue_label", "extra")
 			st = C18Step{Kind: "foreign", W: wi, Pods: []int{rapid.IntRange(0, 5).Draw(t, "pod")}, Arg: arg, Val: pick(t, "fval", "x", "true", "false", "pool-z")}
+		case "foreign_mid":
+			arg := pick(t, "field", "queue", "mark", "backoff", "nodepool_set", "nodepool_del")
+			st = C18Step{Kind: "foreign_mid", W: wi, Pods: []int{rapid.IntRange(0, 5).Draw(t, "pod")}, Arg: arg, Val: pick(t, "fval", "x", "true", "false", "pool-z"), N: rapid.IntRange(1, 8).Draw(t, "midn")}
 		case "owner_label":
 			st = C18Step{Kind: "owner_label", W: wi, Arg: pick(t, "olabel", "priorityClassName", "kai.scheduler/preemptibility", c18QueueLabel, "user", "team"),
 				Val: pick(t, "oval", "", "high", "build", "preemptible", "qb")}
